@@ -50,6 +50,7 @@ func checkC14(c *checkCtx) int {
 		ClassMixes map[string]int    `json:"class_mix_histogram"`
 		Sentinels  []struct {
 			Case  json.RawMessage `json:"case"`
+			Pair  json.RawMessage `json:"pair"`
 			Hash  uint64          `json:"hash"`
 			Class string          `json:"class"`
 		} `json:"sentinels"`
@@ -58,6 +59,7 @@ func checkC14(c *checkCtx) int {
 	distinct := map[uint64]bool{}
 	sentinel := map[uint64]string{}
 	sentinelCase := map[uint64]json.RawMessage{}
+	sentinelPair := map[uint64]json.RawMessage{}
 	sentinelDiff := map[uint64]string{}
 	sentinelRuns := 0
 	for _, w := range runs {
@@ -101,6 +103,7 @@ func checkC14(c *checkCtx) int {
 					if prev, ok := sentinel[sn.Hash]; !ok {
 						sentinel[sn.Hash] = sn.Class
 						sentinelCase[sn.Hash] = sn.Case
+						sentinelPair[sn.Hash] = sn.Pair
 					} else if prev != sn.Class {
 						sentinelDiff[sn.Hash] = prev + " vs " + sn.Class
 					}
@@ -126,7 +129,7 @@ func checkC14(c *checkCtx) int {
 			Key:    "C14/process/" + cs.Op + "/" + cs.Family,
 			Detail: fmt.Sprintf("%s %q gives different outcomes for the same datum in different worker processes (%s): the result is not a function of (expression, options, datum)", cs.Op, cs.Obj.Expr, d),
 			Seed:   c.Seed,
-			Replay: mustMarshal(map[string]interface{}{"engine": "ordersim", "property": "C14", "build": "plain", "seed": c.Seed, "case": sentinelCase[h], "cross_process": true})})
+			Replay: mustMarshal(map[string]interface{}{"engine": "ordersim", "property": "C14", "build": "plain", "seed": c.Seed, "case": sentinelCase[h], "pair": sentinelPair[h], "cross_process": true})})
 	}
 	// probe on the untouched build
 	probed, calls := 0, 0
